@@ -2,6 +2,7 @@ package props
 
 import (
 	"fmt"
+	"math/rand"
 
 	"vh/core"
 	"vh/crdt"
@@ -178,3 +179,6 @@ func runC01(c *core.Case) *core.Result {
 	}
 	return c.Held()
 }
+
+// newRand returns a PRNG for goroutine-local use.
+func newRand(seed int64) *rand.Rand { return rand.New(rand.NewSource(seed)) }
